@@ -497,15 +497,22 @@ func genInts(r *gen.Rand) (string, []uint64) {
 			cur += uint64(int64(r.Uint64()%(1<<k+1)) * int64(1-2*r.Intn(2)))
 		}
 	case 6:
-		shape = "s8-boundary" // zig-zag delta at simple8b.MaxValue and one above
+		shape = "s8-boundary" // largest zig-zag delta exactly at simple8b.MaxValue, one above, or two above (one regime per column)
+		regime := r.Intn(3)
+		fit := []int64{1<<59 - 1, -(1 << 59), 5, -7, 1 << 58}
+		over := []int64{0, 1 << 59, -(1<<59 + 1)}[regime]
+		at := -1
+		if regime > 0 && n > 1 {
+			at = r.Range(1, n-1)
+		}
 		cur := start
 		for i := range vs {
-			vs[i] = cur
-			d := []int64{1<<59 - 1, -(1 << 59), 1 << 59, -(1<<59 + 1), 3, -7}[r.Intn(6)]
-			if r.Chance(3, 4) {
-				d = []int64{1<<59 - 1, -(1 << 59), 5}[r.Intn(3)]
+			d := fit[r.Intn(len(fit))]
+			if i == at {
+				d = over
 			}
 			cur += uint64(d)
+			vs[i] = cur
 		}
 	case 7:
 		shape = "extremes"
@@ -535,7 +542,15 @@ func genInts(r *gen.Rand) (string, []uint64) {
 			vs[i] = start + uint64(i)*d
 		}
 		if n > 0 {
-			vs[n-1] += uint64(r.Intn(2))
+			// break the progression at the end, at the start or in the middle
+			switch r.Intn(3) {
+			case 0:
+				vs[n-1] += uint64(r.Intn(2))
+			case 1:
+				vs[0] += uint64(r.Intn(2) + 1)
+			default:
+				vs[r.Intn(n)] -= uint64(r.Intn(3))
+			}
 		}
 	}
 	return shape, vs
@@ -566,13 +581,25 @@ func genTimes(r *gen.Rand) (string, []uint64) {
 		for i := range vs {
 			vs[i] = start + uint64(i)*d
 		}
-	case 1, 2:
+	case 1:
 		shape = "scaled-steps"
 		sc := pow10(r.Intn(14))
 		cur := start
 		for i := range vs {
 			vs[i] = cur
 			cur += sc * uint64(r.Intn(1<<uint(r.Range(1, 12))))
+		}
+	case 2:
+		shape = "scaled-steps-one-odd" // every delta a multiple of 10^k except one (first, last or random position)
+		sc := pow10(r.Range(1, 12))
+		cur := start
+		odd := []int{0, 1, n - 2, r.Intn(n + 1)}[r.Intn(4)]
+		for i := range vs {
+			vs[i] = cur
+			cur += sc * uint64(r.Intn(50)+1)
+			if i == odd {
+				cur += uint64(r.Intn(9) + 1)
+			}
 		}
 	case 3:
 		shape = "jitter"
@@ -590,11 +617,22 @@ func genTimes(r *gen.Rand) (string, []uint64) {
 			vs[n-1] += uint64(r.Intn(3))
 		}
 	case 5:
-		shape = "s8-boundary" // delta at MaxValue-1, MaxValue, MaxValue+1 (the test is strict)
+		shape = "s8-boundary" // largest delta at MaxValue-1, MaxValue or MaxValue+1 (one regime per column)
+		regime := r.Intn(3)
+		fit := []uint64{1<<60 - 2, 7, 1 << 59, 1<<60 - 2}
+		over := []uint64{1<<60 - 2, 1<<60 - 1, 1 << 60}[regime]
+		at := 1
+		if n > 1 {
+			at = r.Range(1, n-1)
+		}
 		cur := start
 		for i := range vs {
+			d := fit[r.Intn(len(fit))]
+			if i == at {
+				d = over
+			}
+			cur += d
 			vs[i] = cur
-			cur += []uint64{1<<60 - 2, 1<<60 - 1, 1 << 60, 7, 1<<60 - 2, 1<<60 - 2}[r.Intn(6)]
 		}
 	case 6:
 		shape = "descending" // unsigned deltas wrap
@@ -760,6 +798,8 @@ func genBools(r *gen.Rand) (string, []uint64) {
 	n := genLen(r)
 	if r.Chance(1, 2) {
 		n = r.Intn(20)
+	} else if r.Chance(1, 3) {
+		n = []int{8, 16, 64, 512, 520, 1000, 1024}[r.Intn(7)] // whole bytes: no padding bits
 	}
 	vs := make([]uint64, n)
 	shape := "random"
@@ -874,6 +914,8 @@ func runCase(c *Case) {
 		runString(c)
 	case "frame":
 		runFrame(c)
+	case "record":
+		runRecord(c)
 	}
 	gen.Emit(c)
 }
@@ -936,8 +978,11 @@ func main() {
 			c.K = "string"
 			c.Shape, c.Strs, c.Algo = genStrings(r)
 		default:
-			c.K = "frame"
-			genFrame(r, &c)
+			if i%24 == 23 {
+				genRecord(r, &c)
+			} else {
+				genFrame(r, &c)
+			}
 		}
 		runCase(&c)
 	}
